@@ -16,6 +16,7 @@ import (
 	"strconv"
 	"strings"
 	"sync"
+	"sync/atomic"
 	"time"
 
 	"github.com/tormoder/fit"
@@ -177,12 +178,24 @@ func (r implRes) errClass() int {
 	return -1
 }
 
-const c01Silence = 15 * time.Second // no answer for this long: the current case hangs
+const c01Silence = 10 * time.Second // no answer for this long: the current case hangs
+
+// once this many cases of one batch have hung or killed their process the rest of the batch is skipped:
+// every further hang costs c01Silence, and the verdict is already decided
+const c01MaxFatal = 6
+
+var c01Fatal int32
 
 // runChildSeq runs cases[lo:hi] in child processes, restarting after a hang or crash.
 func runChildSeq(self string, cases []c01Case, lo, hi int, res []implRes) {
 	i := lo
 	for i < hi {
+		if atomic.LoadInt32(&c01Fatal) >= c01MaxFatal {
+			for ; i < hi; i++ {
+				res[i] = implRes{Class: "skipped"}
+			}
+			return
+		}
 		cmd := exec.Command(self, "c01run")
 		cmd.Env = append(os.Environ(), "GOMEMLIMIT=1GiB")
 		stdin, _ := cmd.StdinPipe()
@@ -228,6 +241,7 @@ func runChildSeq(self string, cases []c01Case, lo, hi int, res []implRes) {
 					// the child died on case i
 					cmd.Wait()
 					res[i] = implRes{Class: "crash", Text: "child process died: " + tail(errBuf.String(), 600)}
+					atomic.AddInt32(&c01Fatal, 1)
 					i++
 					alive = false
 					break
@@ -245,6 +259,7 @@ func runChildSeq(self string, cases []c01Case, lo, hi int, res []implRes) {
 				cmd.Process.Kill()
 				cmd.Wait()
 				res[i] = implRes{Class: "hang", Text: "no return within " + c01Silence.String()}
+				atomic.AddInt32(&c01Fatal, 1)
 				i++
 				alive = false
 			}
@@ -284,6 +299,7 @@ func tail(s string, n int) string {
 // runImpl runs all cases on the implementation, in parallel child processes.
 func runImpl(cases []c01Case, par int) []implRes {
 	res := make([]implRes, len(cases))
+	atomic.StoreInt32(&c01Fatal, 0)
 	self, err := os.Executable()
 	if err != nil {
 		self = os.Args[0]
@@ -380,6 +396,9 @@ func judgeBatch(r *report, tag string, cases []c01Case, is []implRes, ms []model
 	for i, c := range cases {
 		im := is[i]
 		r.hist(tag + "_impl_" + im.Class)
+		if im.Class == "skipped" {
+			continue
+		}
 		r.hist("entry_" + c.Entry)
 		switch im.Class {
 		case "panic":
@@ -766,17 +785,32 @@ func runC01(args []string) int {
 	var bcases []c01Case
 	var bmodel []bool
 	unlistedBudget := sizes(o.tier, o.boost, 3000, 60000)
-	nUnlisted := 0
+	listedBudget := sizes(o.tier, o.boost, 150000, 3000000)
+	nUnlisted, nListed := 0, 0
 	for _, a := range accepted {
-		if !a.listed {
+		if a.listed {
+			nListed++
+		} else {
 			nUnlisted++
 		}
 	}
+	// the unchanged library accepts about 48000 definitions of listed fields: all of them are run. If a change of
+	// the validator makes that explode, each (message, field, base type) row keeps its smallest and largest
+	// accepted size and a random sample.
+	sampleListed := nListed > listedBudget
+	r.Extra["accepted_listed_definitions"] = nListed
+	r.Extra["accepted_listed_sampled"] = sampleListed
 	k := 0
-	for _, a := range accepted {
+	for ai, a := range accepted {
 		if !a.listed {
 			// sample
 			if nUnlisted > unlistedBudget && rg.intn(nUnlisted) >= unlistedBudget {
+				continue
+			}
+		} else if sampleListed {
+			first := ai == 0 || accepted[ai-1].gmn != a.gmn || accepted[ai-1].num != a.num || accepted[ai-1].bt != a.bt
+			last := ai == len(accepted)-1 || accepted[ai+1].gmn != a.gmn || accepted[ai+1].num != a.num || accepted[ai+1].bt != a.bt
+			if !first && !last && rg.intn(nListed) >= listedBudget/2 {
 				continue
 			}
 		}
@@ -852,13 +886,31 @@ func runC01(args []string) int {
 	cfg.illFormed = 250
 	cfg.secondFid = 50
 	st := genStats{}
+	// the generator calls exported methods of the library's types package: if one of them panics (that is a defect
+	// the validator sweep reports), the stream is skipped
+	genPanics := 0
+	safeGen := func() (s *stream) {
+		defer func() {
+			if rec := recover(); rec != nil {
+				genPanics++
+				if genPanics == 1 {
+					r.Notes = append(r.Notes, fmt.Sprintf("the stream generator panicked inside a library method: %v", rec))
+				}
+				s = nil
+			}
+		}()
+		return genStream(rg, &cfg, st)
+	}
 	for i := 0; i < nGen; i++ {
 		if i%3 == 0 {
 			cfg.illFormed = 0
 		} else {
 			cfg.illFormed = 250
 		}
-		s := genStream(rg, &cfg, st)
+		s := safeGen()
+		if s == nil {
+			continue
+		}
 		data := s.bytes()
 		origin := "generated"
 		if i%2 == 1 {
@@ -866,7 +918,10 @@ func runC01(args []string) int {
 		}
 		if i%11 == 10 {
 			// chained: append another file (or garbage)
-			s2 := genStream(rg, &cfg, st)
+			s2 := safeGen()
+			if s2 == nil {
+				continue
+			}
 			d2 := s2.bytes()
 			if rg.intn(3) == 0 {
 				d2, _ = mutateBytes(rg, d2)
@@ -876,6 +931,7 @@ func runC01(args []string) int {
 		}
 		addCase(entries[rg.intn(len(entries))], data, origin, fams[rg.intn(len(fams))], true)
 	}
+	r.Hist["generator_panics"] = genPanics
 	for k, v := range st {
 		if !strings.HasPrefix(k, "cell_") && !strings.HasPrefix(k, "filetype_") {
 			r.Hist["gen_"+k] += v
@@ -893,6 +949,54 @@ func runC01(args []string) int {
 			data = append(validHeaderBytes(rg, uint32(rg.u64())), rg.bytes(rg.intn(80))...)
 		}
 		addCase(entries[rg.intn(len(entries))], data, "noise", fams[rg.intn(len(fams))], true)
+	}
+	// every value at every position of two small valid streams (12- and 14-byte header), as is and with the
+	// file CRC repaired so that decoding runs to the end
+	for hi, hs := range []byte{12, 14} {
+		base := &stream{HdrSize: hs, Proto: 0x20, Profile: 2115, HdrCRC: "ok"}
+		base.Records = []record{
+			{Kind: "D", Local: 0, Gmn: 0, Fields: []fieldDefS{{0, 1, 0}}},
+			{Kind: "M", Local: 0, Pay: []byte{4}},
+			{Kind: "D", Local: 1, Arch: byte(hi), Gmn: 20, Fields: []fieldDefS{{253, 4, 0x86}, {3, 1, 2}, {6, 2, 0x84}}},
+			{Kind: "M", Local: 1, Pay: []byte{1, 2, 3, 0x40, 150, 7, 8}},
+			{Kind: "Z", Local: 1, Offset: 9, Pay: []byte{1, 2, 3, 0x40, 151, 7, 8}},
+		}
+		bb := base.bytes()
+		step := 1
+		if !thorough && o.boost == 1 {
+			step = 3 // quick: every third value (offset by position), all values for the first 16 bytes
+		}
+		for pos := 0; pos < len(bb); pos++ {
+			for v := pos % step; v < 256; v += step {
+				if byte(v) == bb[pos] {
+					continue
+				}
+				md := append([]byte{}, bb...)
+				md[pos] = byte(v)
+				e := "D"
+				if v%7 == 6 {
+					e = []string{"C", "F", "I", "H", "J"}[(v/7)%5]
+				}
+				addCase(e, md, fmt.Sprintf("byte %d of a small valid stream set to 0x%02x", pos, v), fams[(pos+v)%len(fams)], true)
+				if pos >= int(hs) && pos < len(bb)-2 {
+					m2 := append([]byte{}, md...)
+					c := crcOf(m2[:len(m2)-2])
+					m2[len(m2)-2], m2[len(m2)-1] = byte(c), byte(c>>8)
+					addCase("D", m2, fmt.Sprintf("byte %d of a small valid stream set to 0x%02x, CRC repaired", pos, v), 0, true)
+				}
+			}
+		}
+		// the header bytes exhaustively, through every entry point
+		for pos := 0; pos < int(hs); pos++ {
+			for v := 0; v < 256; v++ {
+				if byte(v) == bb[pos] {
+					continue
+				}
+				md := append([]byte{}, bb...)
+				md[pos] = byte(v)
+				addCase([]string{"D", "C", "I", "J", "H", "F"}[(pos+v)%6], md, fmt.Sprintf("header byte %d set to 0x%02x", pos, v), []int{0, 1, 8}[v%3], true)
+			}
+		}
 	}
 	// the historical crashers
 	crashers, cerr := loadCrashers()
